@@ -95,7 +95,7 @@ def word_count(src, name):
     return len(re.findall(r"(?<![A-Za-z0-9_$])%s(?![A-Za-z0-9_$])" % re.escape(name), src))
 
 
-def eligible_ids(src, ids):
+def eligible_ids(src, ids, allow=(), inner_only=False):
     """ids: result of `idents` -> [(name, ctxt, [occurrence (start,end)])] eligible by the property's rule."""
     if not ids or "idents" not in ids:
         return []
@@ -112,8 +112,10 @@ def eligible_ids(src, ids):
     for (sym, ctxt), occ in by_id.items():
         if ctxt == unresolved or (sym, ctxt) in exported:
             continue
-        if not IDENT.match(sym) or sym in RESERVED or HOOK_LIKE.match(sym):
+        if not IDENT.match(sym) or (sym in RESERVED and sym not in allow) or HOOK_LIKE.match(sym):
             continue
+        if inner_only and ctxt <= unresolved + 1:
+            continue      # module-level bindings are what a configured JSX factory refers to by spelling
         kinds = {k for (_, _, k, _) in occ}
         if "bind" not in kinds or kinds - {"bind", "ref"}:
             continue
@@ -290,6 +292,20 @@ def c20(ctx):
         progs.append({"src": sn["src"], "media": None, "origin": "corpus:" + sn["rule_file"]})
     for _ in range(3000 if quick else 40000):
         progs.append(gen_program(rng))
+    # targeted: locals spelled like the configured JSX factory (the configuration names a MODULE-LEVEL spelling; inner bindings are ordinary)
+    for tpl in ("export const el = <div/>; export function App(N1: number) { return 1; }", "export const el = <><p/></>; export const g7 = (N1: number, N2: number) => N2;",
+                "export function App() { const N1 = 1; return <div>{2}</div>; }", "export class C7 { m(N1: number) { return <a/>; } }"):
+        for (cf, cg) in (("h", "Fragment"), ("React.createElement", "React.Fragment"), ("preact.h", "preact.Fragment")):
+            for nm in (cf.split(".")[0], cg.split(".")[0]):
+                progs.append({"src": tpl.replace("N1", nm).replace("N2", "other7"), "media": "tsx", "origin": "generated", "jsx": cf, "jsxfrag": cg, "allow": (nm,)})
+    # targeted: a binding whose name is a SUBSTRING of text that sits in a recovered syntax error (invalid assignment pattern)
+    for tpl in ("let N1 = 1; [width + n] = f();", "function f8(N1: number) { ({ w: height + N2 } = x); }", "const N1 = 2; export const g8 = ([header + 1]) => 0;"):
+        for nm in ("id", "wid", "th", "he", "head", "eight"):
+            progs.append({"src": tpl.replace("N1", nm).replace("N2", "n"), "media": "ts", "origin": "generated"})
+    # targeted: two same-scope names of equal length that share their first three characters (a lossy key)
+    for a7, b7 in (("start", "state"), ("item1", "item2"), ("parse", "parts"), ("Kind1", "Kind2"), ("abc", "abd"), ("total1", "total2"), ("a", "b")):
+        for tpl in ("let N1 = 1, N2 = 2; g(N1);", "function f9(N1: number, N2: number) { return N2; }", "type N1 = number; type N2 = string; let v9: N1; g(v9);", "import { x as N1, y as N2 } from 'm'; g(N2);"):
+            progs.append({"src": tpl.replace("N1", a7).replace("N2", b7), "media": "ts", "origin": "generated"})
     # targeted: a binding whose spelling CONTAINS a keyword that stands next to it (text search vs token lookup)
     for tpl, kws in (("function N1(t: any, k: any) {} class K7 { @N1 async load() { return 1; } }", ["asyncOnly", "unasynced", "isasync"]),
                      ("function N1(n: number) { return (t: any, k: any) => {}; } class K8 { @N1(3) static async load() { return 1; } }", ["asyncOnly", "staticInit", "unasynced"]),
@@ -318,7 +334,8 @@ def c20(ctx):
                 nxt.append(k)
         pending = [k for k in pending if k in set(nxt) or (progs[k]["media"] not in (None, media) and idents[k] is None)]
     parsed = [k for k in range(len(progs)) if idents[k] is not None]
-    before = lib.run_vh("lint", [{"src": progs[k]["src"], "media": progs[k]["media"], "rules": "all"} for k in parsed])
+    cfg_of = lambda pr: {kk: pr[kk] for kk in ("jsx", "jsxfrag") if kk in pr}
+    before = lib.run_vh("lint", [dict({"src": progs[k]["src"], "media": progs[k]["media"], "rules": "all"}, **cfg_of(progs[k])) for k in parsed])
     before = dict(zip(parsed, before))
     trials, skipped = [], collections.Counter()
     per_prog = 2 if quick else 4
@@ -326,7 +343,7 @@ def c20(ctx):
         if "ok" not in (before[k] or {}):
             skipped["original does not lint (panic / parse error): C01's business"] += 1
             continue
-        el = eligible_ids(progs[k]["src"], idents[k])
+        el = eligible_ids(progs[k]["src"], idents[k], allow=progs[k].get("allow", ()), inner_only=bool(cfg_of(progs[k])))
         if not el:
             skipped["no eligible binding"] += 1
             continue
@@ -338,7 +355,7 @@ def c20(ctx):
                 skipped["no fresh name available (short name, every letter occurs in the texts)"] += 1
                 continue
             trials.append({"prog": k, "old": sym, "fresh": fr, "ctxt": ctxt, "occ": occ, "src2": rename_in_place(progs[k]["src"], occ, fr)})
-    after = lib.run_vh("lint", [{"src": t["src2"], "media": progs[t["prog"]]["media"], "rules": "all"} for t in trials])
+    after = lib.run_vh("lint", [dict({"src": t["src2"], "media": progs[t["prog"]]["media"], "rules": "all"}, **cfg_of(progs[t["prog"]])) for t in trials])
     after_ids = lib.run_vh("idents", [{"src": t["src2"], "media": progs[t["prog"]]["media"]} for t in trials])
     mism, nontrivial, kinds = [], set(), collections.Counter()
     bad_rename = []
